@@ -50,6 +50,8 @@ def run(tier, seed, only=None):
     # a nested `with db_session(serializable=True)` must be refused unless the outer session is serializable (harness of C18's module:
     # it needs the transactional connection model there)
     specs.append(dict(module='checks.h_c18', fn='nested_serializable_refusal', cond_timeout=T, path_timeout=T / 2, setup='setup'))
+    # a locking re-fetch of a row whose value the session has already observed fails loudly when the value changed (harness of C21)
+    specs.append(dict(module='checks.h_c21', fn='reload_a_locked', cond_timeout=T, path_timeout=T / 2, setup='setup'))
     if only: specs = [s for s in specs if only in s['fn']]
     thorough = tier == 'thorough'
     rep.bounds = {
